@@ -33,6 +33,20 @@ HASH_HEAVY = [
     ("Debug", 'struct S<A, B, C, D, E> { #[debug("{a:x}")] a: A, #[debug("{b} {c:?}")] b: B, c: C, #[debug(skip)] d: D, e: E }'),
     ("Debug", '#[debug(bound(A: Clone, B: Copy, C: Default))] enum E<A, B, C, D> { #[debug("{_0:?}{_1}")] V(A, B), W { #[debug("{x:e}")] x: C, y: D }, U }'),
     ("Display", '#[display(bound(A: Clone, D: Copy))] #[display("{_variant}/{_variant}")] enum E<A, B, C, D> { #[display("{_0}{_1}")] V(A, B), #[display("{_0:?}")] W(C), X(D) }'),
+    # near twins: items that agree in everything a cache key could plausibly be made of (the literal, the item name, the
+    # attribute name) and differ only in the arguments / fields - an answer remembered from one must not leak into the other,
+    # in whichever order they are expanded (added after seed C19-j: a process-wide memo keyed by the literal alone)
+    ("Display", '#[display("<{}>", _variant)] enum E { #[display("x={_0}")] A(i32), B(u8) }'),
+    ("Display", '#[display("<{}>", _0)] enum E { #[display("x={_0}")] A(i32), B(u8) }'),
+    ("Display", '#[display("{v}", v = _variant)] enum E { #[display("x={_0}")] A(i32), B(u8) }'),
+    ("Display", '#[display("{v}", v = _0)] enum E { #[display("x={_0}")] A(i32), B(u8) }'),
+    ("Display", '#[display("{0} {x}", _0, x = 1)] struct S<T>(T);'), ("Display", '#[display("{0} {x}", 1, x = _0)] struct S<T>(T);'),
+    ("Debug", 'struct S<T, U> { #[debug("{}", a)] a: T, b: U }'), ("Debug", 'struct S<T, U> { #[debug("{}", b)] a: T, b: U }'),
+    ("LowerHex", '#[lower_hex("{:x}", _0)] struct S<T, U>(T, U);'), ("LowerHex", '#[lower_hex("{:x}", _1)] struct S<T, U>(T, U);'),
+    ("Display", '#[display("{_0}")] struct S<T>(T);'), ("Display", '#[display("{_0}")] struct S<T>(T, u8);'),
+    ("From", "#[from(u8, u16)] struct S(u32);"), ("From", "#[from(u8, u16)] struct S(u64);"),
+    ("AsRef", "#[as_ref(str)] struct S(String);"), ("AsRef", "#[as_ref(str)] struct S(Box<str>);"),
+    ("TryInto", "#[try_into(ref)] enum E { A(u8), B(u16) }"), ("TryInto", "#[try_into(ref)] enum E { A(u8), B(u8) }"),
     # type lists spread over several attributes (merged by the shared attribute helpers)
     ("From", "#[from(u8)] #[from(u16, u32)] #[from(u64)] #[from(i8, i16)] #[from(i32)] struct S(i128);"),
     ("From", "enum E { #[from(u8)] #[from(u16)] #[from(u32)] #[from(u64)] A(u128), #[from(i8, i16)] #[from(i32, i64)] B(i128) }"),
